@@ -30,7 +30,7 @@ from furax.operators.polarizers import LinearPolarizerOperator
 from furax.operators.qu_rotations import QURotationOperator
 from furax.operators.toeplitz import SymmetricBandToeplitzOperator
 
-from .common import S, f64
+from .common import _DEFAULT, S, f64
 
 # concrete integer / Boolean structure parameters: created OUTSIDE any trace, as real jax Arrays
 IDX = jnp.array([0, 2, 2, -1])
@@ -42,11 +42,16 @@ M2 = jnp.array([True, False])
 SPD = jnp.array([[2., 1, 0], [1, 2, 0], [0, 0, 1]])
 SPD2 = jnp.array([[1., 0, 0], [0, 2, 1], [0, 1, 1]])
 
-IQU = StokesIQUPyTree.structure_for((2,), f64)
-QU = StokesQUPyTree.structure_for((2,), f64)
-IQUV = StokesIQUVPyTree.structure_for((2,), f64)
-SI = StokesIPyTree.structure_for((2,), f64)
-TREE = {'a': S(3), 'b': [S(2, 3), S(3)]}
+def iqu_():
+    return StokesIQUPyTree.structure_for((2,), _DEFAULT['dtype'])
+
+
+def tree_():
+    return {'a': S(3), 'b': [S(2, 3), S(3)]}
+
+
+def spd_(m):
+    return m.astype(_DEFAULT['dtype'])
 
 
 def dense(b, st, sub='ij,j->i'):
@@ -73,8 +78,8 @@ FAM = {
         'Sl': ((), lambda: IndexOperator(slice(0, 2), in_structure=S(3)), ''),
         'Rs': ((), lambda: ReshapeOperator((3, 1), in_structure=S(3)), ''),
         'Rs0': ((), lambda: ReshapeOperator((3,), in_structure=S(3)), ''),
-        'Spd': ((), lambda: dense(SPD, S(3)), ''),
-        'Spd2': ((), lambda: dense(SPD2, S(3)), ''),
+        'Spd': ((), lambda: dense(spd_(SPD), S(3)), ''),
+        'Spd2': ((), lambda: dense(spd_(SPD2), S(3)), ''),
         'Tz': (((2,),), lambda h: SymmetricBandToeplitzOperator(h, S(3), method='direct'), ''),
         'Bd': (((2, 3),), lambda d: BroadcastDiagonalOperator(d, axis_destination=-1, in_structure=S(3)), ''),
     },
@@ -103,27 +108,27 @@ FAM = {
         'To': (((2,),), lambda h: SymmetricBandToeplitzOperator(h, S(2, 3), method='overlap_save', fft_size=4), ''),
     },
     'stokes': {
-        'R': (((2,),), lambda a: QURotationOperator(a, IQU), ''),
-        'R2': (((2,),), lambda a: QURotationOperator(a, IQU), ''),
-        'Rs': (((),), lambda a: QURotationOperator(a, IQU), ''),
-        'H': ((), lambda: HWPOperator(IQU), ''),
-        'Pol': ((), lambda: LinearPolarizerOperator(IQU), ''),
-        'Pk': ((), lambda: PackOperator(M2, IQU), ''),
-        'k': (((),), lambda k: HomothetyOperator(k, IQU), 'nz'),
-        'Dq': (((2,),), lambda d: DiagonalOperator(d, in_structure=IQU), ''),
-        'Ix': ((), lambda: IndexOperator(IDX3, in_structure=IQU), ''),
-        'Id': ((), lambda: IdentityOperator(IQU), ''),
+        'R': (((2,),), lambda a: QURotationOperator(a, iqu_()), ''),
+        'R2': (((2,),), lambda a: QURotationOperator(a, iqu_()), ''),
+        'Rs': (((),), lambda a: QURotationOperator(a, iqu_()), ''),
+        'H': ((), lambda: HWPOperator(iqu_()), ''),
+        'Pol': ((), lambda: LinearPolarizerOperator(iqu_()), ''),
+        'Pk': ((), lambda: PackOperator(M2, iqu_()), ''),
+        'k': (((),), lambda k: HomothetyOperator(k, iqu_()), 'nz'),
+        'Dq': (((2,),), lambda d: DiagonalOperator(d, in_structure=iqu_()), ''),
+        'Ix': ((), lambda: IndexOperator(IDX3, in_structure=iqu_()), ''),
+        'Id': ((), lambda: IdentityOperator(iqu_()), ''),
     },
     'tree': {
-        'I': ((), lambda: IdentityOperator(TREE), ''),
-        'k': (((),), lambda k: HomothetyOperator(k, TREE), 'nz'),
-        'D': (((3,),), lambda d: DiagonalOperator(d, in_structure=TREE), ''),
-        'Rv': ((), lambda: RavelOperator(in_structure=TREE), ''),
-        'Rl': ((), lambda: RavelOperator(-1, -1, in_structure=TREE), ''),
-        'Ix': ((), lambda: IndexOperator((..., UIDX), in_structure=TREE, unique_indices=True), ''),
-        'Ir': ((), lambda: IndexOperator((..., IDX), in_structure=TREE), ''),
-        'E': (((2, 3),), lambda b: dense(b, TREE, 'ij,...j->...i'), ''),
-        'Et': (((3, 3),), lambda b: dense(b, TREE, 'ij,...j->...i'), ''),
+        'I': ((), lambda: IdentityOperator(tree_()), ''),
+        'k': (((),), lambda k: HomothetyOperator(k, tree_()), 'nz'),
+        'D': (((3,),), lambda d: DiagonalOperator(d, in_structure=tree_()), ''),
+        'Rv': ((), lambda: RavelOperator(in_structure=tree_()), ''),
+        'Rl': ((), lambda: RavelOperator(-1, -1, in_structure=tree_()), ''),
+        'Ix': ((), lambda: IndexOperator((..., UIDX), in_structure=tree_(), unique_indices=True), ''),
+        'Ir': ((), lambda: IndexOperator((..., IDX), in_structure=tree_()), ''),
+        'E': (((2, 3),), lambda b: dense(b, tree_(), 'ij,...j->...i'), ''),
+        'Et': (((3, 3),), lambda b: dense(b, tree_(), 'ij,...j->...i'), ''),
     },
 }
 
